@@ -454,10 +454,14 @@ def gen_case(ch: Chooser, excl=()):
         a_extra["incl_src"] = False
     if ch.bool(1, 4):
         a_extra["proc_internals"] = True
-    return finish_case(amods, bfiles, refs, neg, inside, kinds, history, naming, a_display, a_extra, ch.bool(2, 3))
+    b_graph = ch.bool(2, 3)
+    b_extra = {}
+    if ch.bool(1, 2):
+        b_extra["sort"] = ch.choice(["alpha", "permission", "permission-alpha", "type", "type", "type-alpha", "type-alpha"])
+    return finish_case(amods, bfiles, refs, neg, inside, kinds, history, naming, a_display, a_extra, b_graph, b_extra)
 
 
-def finish_case(amods, bfiles, refs, neg, inside, kinds, history, naming, a_display, a_extra, b_graph):
+def finish_case(amods, bfiles, refs, neg, inside, kinds, history, naming, a_display, a_extra, b_graph, b_extra=None):
     files = render_A(amods)
     files.update(bfiles)
     a_opts = {"project": "A", "src_dir": "./src", "externalize": True, "graph": False, "search": False, "parallel": 0,
@@ -466,6 +470,7 @@ def finish_case(amods, bfiles, refs, neg, inside, kinds, history, naming, a_disp
     files["A/project.md"] = site.project_file(a_opts)
     b_opts = {"project": "B", "src_dir": "./src", "external": "A = {A_URL}", "graph": b_graph, "search": False, "parallel": 0,
               "preprocess": False, "display": ["public", "private", "protected"]}
+    b_opts.update(b_extra or {})
     files["B/project.md"] = site.project_file(b_opts)
     # expected modules.json content
     expected_json = {}
@@ -495,7 +500,8 @@ def finish_case(amods, bfiles, refs, neg, inside, kinds, history, naming, a_disp
                 for h in helpers(e):
                     public_targets.append([f"proc/{h}.html", ""])
     classes = sorted("ref:" + k for k in kinds) + ["history:" + history, "naming:" + naming] + \
-        (["renamed-reexport"] if any(m.get("renames") for m in amods) else [])
+        (["renamed-reexport"] if any(m.get("renames") for m in amods) else []) + \
+        ["B:" + k + "=" + str(v) for k, v in (b_extra or {}).items()]
     special = bool(set(kinds) & {"clash-module", "clash-entity", "private-name"}) or naming.startswith("remote") or damaged
     return {"files": files, "refs": refs, "neg": neg, "inside": inside, "history": history, "naming": naming,
             "expected_json": expected_json, "damaged": damaged,
